@@ -624,6 +624,83 @@ theorem restrictCore_root (t : Topo) (p : Params) (t' : Topo) (h : restrictCore 
       rw [this]; rfl
   · exact absurd h (by simp)
 
+/-! ### the memory children list after a merge is a permutation of parent's ++ child's -/
+
+/-- mergeNode with the memory list left unsorted (all multiset / set statements are proved for it and transported) -/
+def mergeNode0 (replaceChild : Bool) (o : RObj) (ns ms ios mis : List Tree) : Tree :=
+  match ns with
+  | [.node co cns cms cios cmis] =>
+    .node (if replaceChild then o else absorbIf ms o co) cns (ms ++ cms) (ios ++ cios) (mis ++ cmis)
+  | _ => .node o ns ms ios mis
+
+def withMs (t : Tree) (mm : List Tree) : Tree := match t with | .node o ns _ ios mis => .node o ns mm ios mis
+def newMs (replaceChild : Bool) (ns ms : List Tree) : List Tree :=
+  match ns with
+  | [.node _ _ cms _ _] => mergedMs replaceChild ms cms
+  | _ => ms
+
+theorem insertMem_perm (c : Tree) (l : List Tree) : (insertMem c l).Perm (c :: l) := by
+  induction l with
+  | nil => exact .refl _
+  | cons x xs ih =>
+    simp only [insertMem]
+    split
+    · exact .refl _
+    · exact ((List.Perm.cons x ih).trans (List.Perm.swap c x xs))
+
+theorem reorderMem_perm (l : List Tree) : (reorderMem l).Perm l := by
+  have h : ∀ (l acc : List Tree), (l.foldl (fun acc c => insertMem c acc) acc).Perm (acc ++ l) := by
+    intro l
+    induction l with
+    | nil => intro acc; simp
+    | cons c cs ih =>
+      intro acc
+      simp only [List.foldl_cons]
+      refine (ih (insertMem c acc)).trans ?_
+      refine (List.Perm.append_right cs (insertMem_perm c acc)).trans ?_
+      simp only [List.cons_append]
+      exact List.perm_middle.symm
+  simpa [reorderMem] using h l []
+
+theorem mergedMs_perm (rc : Bool) (ms cms : List Tree) : (mergedMs rc ms cms).Perm (ms ++ cms) := by
+  unfold mergedMs
+  by_cases h : (if rc = true then cms.isEmpty else ms.isEmpty) = true
+  · rw [if_pos h]
+  · rw [if_neg h]; exact reorderMem_perm _
+
+theorem mergeNode_eq (rc : Bool) (o : RObj) (ns ms ios mis : List Tree) :
+    mergeNode rc o ns ms ios mis = withMs (mergeNode0 rc o ns ms ios mis) (newMs rc ns ms) := by
+  cases ns with
+  | nil => rfl
+  | cons t ts =>
+    cases ts with
+    | nil => cases t; rfl
+    | cons _ _ => cases t; rfl
+
+theorem newMs_perm (rc : Bool) (o : RObj) (ns ms ios mis : List Tree) :
+    (newMs rc ns ms).Perm (mergeNode0 rc o ns ms ios mis).ms := by
+  cases ns with
+  | nil => exact .refl _
+  | cons t ts =>
+    cases ts with
+    | nil => cases t; exact mergedMs_perm _ _ _
+    | cons _ _ => cases t; exact .refl _
+
+theorem obj_withMs (t : Tree) (mm : List Tree) : (withMs t mm).obj = t.obj := by cases t; rfl
+
+theorem objsT_withMs_perm (t : Tree) (mm : List Tree) (h : mm.Perm t.ms) : (objsT (withMs t mm)).Perm (objsT t) := by
+  cases t with
+  | node o ns ms ios mis =>
+    simp only [withMs, objsT, Tree.ms] at h ⊢
+    refine List.Perm.cons o ?_
+    exact List.Perm.append_right _ (List.Perm.append_right _ (List.Perm.append_left _ (objsL_perm h)))
+
+/-- transport along `mergeNode_eq`: the objects of the merged node are those of the unsorted version -/
+theorem objsT_mergeNode_perm (rc : Bool) (o : RObj) (ns ms ios mis : List Tree) :
+    (objsT (mergeNode rc o ns ms ios mis)).Perm (objsT (mergeNode0 rc o ns ms ios mis)) := by
+  rw [mergeNode_eq]
+  exact objsT_withMs_perm _ _ (newMs_perm rc o ns ms ios mis)
+
 section count
 variable {α : Type} [DecidableEq α] (f : RObj → α) (a : α)
 
@@ -649,15 +726,20 @@ theorem absorbIf_congr (hm : ∀ o co, f (absorb o co) = f co) (ms : List Tree) 
   · exact hm o co
 
 /-- `hm`: the attribute is not changed by taking over a parent's complete sets -/
-theorem cnt_mergeNode (hm : ∀ o co, f (absorb o co) = f co) (rc : Bool) (o : RObj) (ns ms ios mis : List Tree) :
-    cnt f a (objsT (mergeNode rc o ns ms ios mis)) ≤ cnt f a (objsT (.node o ns ms ios mis)) := by
-  unfold mergeNode
+theorem cnt_mergeNode0 (hm : ∀ o co, f (absorb o co) = f co) (rc : Bool) (o : RObj) (ns ms ios mis : List Tree) :
+    cnt f a (objsT (mergeNode0 rc o ns ms ios mis)) ≤ cnt f a (objsT (.node o ns ms ios mis)) := by
+  unfold mergeNode0
   split
   · rename_i co cns cms cios cmis
     cases rc <;>
       simp only [objsT, objsL, objsL_append, List.append_nil, List.cons_append, cnt_cons1, cnt_append, if_true, if_false,
         Bool.false_eq_true, cnt1_congr f a (absorbIf_congr f hm ms o co)] <;> omega
   · exact Nat.le_refl _
+
+theorem cnt_mergeNode (hm : ∀ o co, f (absorb o co) = f co) (rc : Bool) (o : RObj) (ns ms ios mis : List Tree) :
+    cnt f a (objsT (mergeNode rc o ns ms ios mis)) ≤ cnt f a (objsT (.node o ns ms ios mis)) := by
+  rw [cnt_perm f a (objsT_mergeNode_perm rc o ns ms ios mis)]
+  exact cnt_mergeNode0 f a hm rc o ns ms ios mis
 
 mutual
 theorem cnt_mergeT (hm : ∀ o co, f (absorb o co) = f co) (ps : List Nat) (rc : Bool) :
@@ -1230,21 +1312,28 @@ theorem mergeDecision_sound (filters : List Nat) (up down : List RObj) (o1 o2 : 
   cases hA : (filterOf filters o1.type == filterKeepStructure) <;>
   cases hB : (filterOf filters o2.type == filterKeepStructure) <;>
   cases hC : (o1.type == tGROUP && dontMergeLevel up) <;>
-  cases hD : (o1.type == tGROUP && dontMergeLevel down) <;>
+  cases hD : (o2.type == tGROUP && dontMergeLevel down) <;>
   cases hE : (o1.type == tPACKAGE && o2.type == tDIE) <;>
   cases hF : decide (priorityOf o1.type ≥ priorityOf o2.type) <;>
-  simp_all
+  simp_all [tGROUP, tPACKAGE, tDIE]
 
 /-- merging one object with its single child removes exactly one of the two objects and keeps every other object of the
     subtree unchanged (the surviving child only takes over the parent's complete sets) -/
+theorem cnt_mergeNode_exact0 {α : Type} [DecidableEq α] (f : RObj → α) (a : α) (hm : ∀ o co, f (absorb o co) = f co)
+    (rc : Bool) (o co : RObj) (cns cms cios cmis ms ios mis : List Tree) :
+    cnt f a (objsT (mergeNode0 rc o [.node co cns cms cios cmis] ms ios mis)) + cnt1 f a (if rc then co else o) =
+      cnt f a (objsT (.node o [.node co cns cms cios cmis] ms ios mis)) := by
+  unfold mergeNode0
+  cases rc <;>
+    simp only [objsT, objsL, objsL_append, List.append_nil, List.cons_append, cnt_cons1, cnt_append, if_true, if_false,
+      Bool.false_eq_true, cnt1_congr f a (absorbIf_congr f hm ms o co)] <;> omega
+
 theorem cnt_mergeNode_exact {α : Type} [DecidableEq α] (f : RObj → α) (a : α) (hm : ∀ o co, f (absorb o co) = f co)
     (rc : Bool) (o co : RObj) (cns cms cios cmis ms ios mis : List Tree) :
     cnt f a (objsT (mergeNode rc o [.node co cns cms cios cmis] ms ios mis)) + cnt1 f a (if rc then co else o) =
       cnt f a (objsT (.node o [.node co cns cms cios cmis] ms ios mis)) := by
-  unfold mergeNode
-  cases rc <;>
-    simp only [objsT, objsL, objsL_append, List.append_nil, List.cons_append, cnt_cons1, cnt_append, if_true, if_false,
-      Bool.false_eq_true, cnt1_congr f a (absorbIf_congr f hm ms o co)] <;> omega
+  rw [cnt_perm f a (objsT_mergeNode_perm rc o _ ms ios mis)]
+  exact cnt_mergeNode_exact0 f a hm rc o co cns cms cios cmis ms ios mis
 
 /-! ### level merging preserves SetsOK and exactness (hwloc fix e57fd49) -/
 
@@ -1276,11 +1365,11 @@ theorem okL_append {par : RObj} {a b : List Tree} (ha : okL par a = true) (hb : 
   · exact ha t h
   · exact hb t h
 
-theorem ok_mergeNode (rc : Bool) (o : RObj) (ns ms ios mis : List Tree) (h : okT (.node o ns ms ios mis) = true) :
-    okT (mergeNode rc o ns ms ios mis) = true ∧
-    subset (mergeNode rc o ns ms ios mis).obj.ccpuset o.ccpuset = true ∧
-    subset (mergeNode rc o ns ms ios mis).obj.cnodeset o.cnodeset = true := by
-  unfold mergeNode
+theorem ok_mergeNode0 (rc : Bool) (o : RObj) (ns ms ios mis : List Tree) (h : okT (.node o ns ms ios mis) = true) :
+    okT (mergeNode0 rc o ns ms ios mis) = true ∧
+    subset (mergeNode0 rc o ns ms ios mis).obj.ccpuset o.ccpuset = true ∧
+    subset (mergeNode0 rc o ns ms ios mis).obj.cnodeset o.cnodeset = true := by
+  unfold mergeNode0
   split
   · rename_i co cns cms cios cmis
     rw [okT_node] at h
@@ -1339,6 +1428,21 @@ theorem ok_mergeNode (rc : Bool) (o : RObj) (ns ms ios mis : List Tree) (h : okT
         · exact h6 x hx
         · exact d6 x hx
   · exact ⟨h, subset_refl _, subset_refl _⟩
+
+theorem okT_withMs (t : Tree) (mm : List Tree) (h : mm.Perm t.ms) (hok : okT t = true) : okT (withMs t mm) = true := by
+  cases t with
+  | node o ns ms ios mis =>
+    simp only [withMs, Tree.ms] at h ⊢
+    rw [okT_node] at hok ⊢
+    exact ⟨hok.1, hok.2.1, hok.2.2.1, (okL_perm o h).2 hok.2.2.2.1, hok.2.2.2.2⟩
+
+theorem ok_mergeNode (rc : Bool) (o : RObj) (ns ms ios mis : List Tree) (h : okT (.node o ns ms ios mis) = true) :
+    okT (mergeNode rc o ns ms ios mis) = true ∧
+    subset (mergeNode rc o ns ms ios mis).obj.ccpuset o.ccpuset = true ∧
+    subset (mergeNode rc o ns ms ios mis).obj.cnodeset o.cnodeset = true := by
+  have h0 := ok_mergeNode0 rc o ns ms ios mis h
+  rw [mergeNode_eq, obj_withMs]
+  exact ⟨okT_withMs _ _ (newMs_perm rc o ns ms ios mis) h0.1, h0.2.1, h0.2.2⟩
 
 theorem ok_merge (ps : List Nat) (rc : Bool) :
     (∀ t, okT t = true → okT (mergeT ps rc t) = true ∧ subset (mergeT ps rc t).obj.ccpuset t.obj.ccpuset = true ∧
@@ -1428,10 +1532,10 @@ theorem fix_absorb (p : Params) (o co : RObj) (h1 : shrinkU p o = o) (h2 : shrin
   · rw [minus_or, a2, b2]
   · rw [minus_or, a4, b4]; exact ⟨rfl, trivial⟩
 
-theorem fix_mergeNode (p : Params) (rc : Bool) (o : RObj) (ns ms ios mis : List Tree)
+theorem fix_mergeNode0 (p : Params) (rc : Bool) (o : RObj) (ns ms ios mis : List Tree)
     (h : ∀ x ∈ objsT (.node o ns ms ios mis), shrinkU p x = x) :
-    ∀ x ∈ objsT (mergeNode rc o ns ms ios mis), shrinkU p x = x := by
-  unfold mergeNode
+    ∀ x ∈ objsT (mergeNode0 rc o ns ms ios mis), shrinkU p x = x := by
+  unfold mergeNode0
   split
   · rename_i co cns cms cios cmis
     have ho : shrinkU p o = o := h o (by simp [objsT])
@@ -1455,6 +1559,12 @@ theorem fix_mergeNode (p : Params) (rc : Bool) (o : RObj) (ns ms ios mis : List 
       · exact Or.inr (Or.inr hx)
       · exact Or.inr (Or.inl (Or.inl (Or.inl (Or.inr (Or.inr hx)))))
   · exact h
+
+theorem fix_mergeNode (p : Params) (rc : Bool) (o : RObj) (ns ms ios mis : List Tree)
+    (h : ∀ x ∈ objsT (.node o ns ms ios mis), shrinkU p x = x) :
+    ∀ x ∈ objsT (mergeNode rc o ns ms ios mis), shrinkU p x = x := by
+  intro x hx
+  exact fix_mergeNode0 p rc o ns ms ios mis h x ((objsT_mergeNode_perm rc o ns ms ios mis).mem_iff.1 hx)
 
 /-! ### exactness over the whole call and along histories -/
 
